@@ -101,7 +101,6 @@ def denotesLeaf (ext : DenExt) (n : Node) (sv : SV) (v : Value) : Bool :=
   | .enum _ syms, .enum idx =>
     match sv with
     | .int t x => t.inRange x ∧ x = idx ∧ idx < syms.length
-    | .char _ => false
     | _ => match textOf sv with
       | some s => syms[idx]? = some s
       | none => false
